@@ -67,6 +67,11 @@ def run(rep: Report, tier: str) -> None:
     fr = c13.FullReport()
     m, prog, norm = fr.m, fr.prog, fr.norm
     gen = fr.gen
+    # the two link tables are anchors: the rules find their writers, readers and resets by the fields' names. A renamed table is not a wrong one
+    used = {n.attr for n in ast.walk(gen.node) if isinstance(n, ast.Attribute)} | {t.id for st in gen.node.body if isinstance(st, (ast.Assign, ast.AnnAssign)) for t in (st.targets if isinstance(st, ast.Assign) else [st.target]) if isinstance(t, ast.Name)}
+    for fld in (T2R, Y2R):
+        if fld.split(".")[1] not in used:
+            raise AnalysisError(f"anchor vanished: the full report's Generator has no field {fld.split('.')[1]} any more (renamed or replaced link table): link rules not decided for this shape")
 
     rb0 = rep.rule("C19.b", "key identifies the transaction within the table's lifetime: lifetime x fields of the key's equality; ids unique inside an asset", floor=4)
     from ..engine import check_private_shadowing
